@@ -428,6 +428,9 @@ class ExprMixin:
                 return self.call_value(BoundMethod(m[0], a, m[1]), [b], {})
         if isinstance(a, (str, bytes)) and isinstance(b, (str, bytes)):
             return {"<": operator.lt, "<=": operator.le, ">": operator.gt, ">=": operator.ge}[sym](a, b)
+        if (isinstance(a, (str, bytes)) and is_scalar(b)) or (isinstance(b, (str, bytes)) and is_scalar(a)):
+            # text / bytes against a number: Python raises TypeError for an ordering comparison
+            raise PyRaise(ExcV(TypeError, (f"'{sym}' not supported between these types",)))
         raise Unsupported(f"ordering of {a!r} and {b!r}")
 
     def contains(self, container, item):
